@@ -199,7 +199,10 @@ impl Db {
         if rebuild {
             log::info!("rebuilding search index at {}", config.index_path.display());
 
-            let mut writer = db.index.writer(50_000_000)?;
+            // NB: a single indexing thread keeps the documents in the order of
+            // the shipped data, so that equally good matches are ranked the
+            // same way every time the index is built.
+            let mut writer = db.index.writer_with_num_threads(1, 50_000_000)?;
             #[cfg(anything_verif)]
             crate::verif::crash_point(10);
             writer.delete_all_documents()?;
